@@ -26,3 +26,4 @@ PROP = {'modules': ['Discv5Model.Props.C10', 'Discv5Model.Props.C09Service', 'Di
                "strictly increasing distance to the lookup's target (result_in_increasing_distance) and every node among them was selected by the lookup and "
                'answered it (result_nodes_answered).',
  'level_note': 'Trusted: Lean kernel, harness/driver. The tie model<->code is a sampled differential check, not a proof.'}
+PROP['rule'] += ' Records at addresses nothing is delivered to (0.0.0.0, multicast) appear in answers; monitor lookup-short-although-a-node-it-learned-of-was-never-asked over the candidates a lookup certainly learned from its answers; lookups for 10^6 and usize::MAX results.'
